@@ -12,7 +12,8 @@ from symx import And, Or, Not, Implies, Iff
 from symx.runner import Unit
 
 from src.correlation.vectorise import vectorisePositions, blur
-from src.correlation.optical_map import toRelativeGenomicPositions, CorrelationResult
+from src.correlation.optical_map import toRelativeGenomicPositions, CorrelationResult, OpticalMap
+from src.correlation.sequence_generator import SequenceGenerator
 from src.correlation.peaks_selector import PeaksSelector
 from src.correlation.peak import Peak
 
@@ -92,6 +93,43 @@ def body_blur(E, cfg):
 def configs_blur(tier):
     top = 6 if tier == "quick" else 10
     return [{"n": n, "radius": r} for n in ((0, 1, 3, top) if tier == "quick" else (0, 1, 2, 3, 5, 8, top)) for r in (0, 1, 2, 3, 4, 6)]
+
+
+def body_window(E, cfg):
+    """the refinement window as InitialAlignment.refine builds and decodes it: the real OpticalMap.getSequence(generator, False, start, end)
+    composed with the real toRelativeGenomicPositions(bin, resolution, start) -- two sites that must agree on the window origin"""
+    n, res, radius = cfg["n"], cfg["res"], cfg["radius"]
+    pos = []
+    for i in range(n):
+        v = E.real(f"label{i}")
+        E.assume(v >= (pos[-1] if i else 0))
+        pos.append(v)
+    start = E.real("start")          # refine passes peakPosition - secondaryMargin: negative near the reference origin
+    end = E.real("end")
+    E.assume(pos[-1] < start + MAXBINS * res)
+    E.assume(end < start + MAXBINS * res)
+    try:
+        seq = list(OpticalMap(1, pos[-1] + 10, list(pos)).getSequence(SequenceGenerator(res, radius), False, start, end))
+        centres = [toRelativeGenomicPositions(i, res, start) for i in range(len(seq))]
+    except Exception as ex:  # noqa
+        E.fail("exception:" + type(ex).__name__)
+        return ["exception", type(ex).__name__]
+    if any(b == 1 for b in seq):
+        E.tag("nontrivial")
+    slack = radius * res
+    E.check("a-set-bin-decodes-to-within-half-a-resolution-(plus-blur)-of-a-label", And([
+        Or([And(2 * (g - p) <= res + 2 + 2 * slack, 2 * (p - g) <= res + 2 + 2 * slack) for p in pos])
+        for b, g in zip(seq, centres) if b == 1]))
+    inside = [And(p >= start, Or(And(Not(end == 0), p <= end), And(end == 0, p <= pos[-1]))) for p in pos]
+    E.check("every-label-of-the-window-is-located-by-a-set-bin-to-within-half-a-resolution", And([
+        Implies(w, Or([And(2 * (g - p) <= res + 2, 2 * (p - g) <= res + 2) for b, g in zip(seq, centres) if b == 1]))
+        for w, p in zip(inside, pos)]))
+    return [[int(b) for b in seq]]
+
+
+def configs_window(tier):
+    return [{"n": n, "res": res, "radius": r} for n in ((1, 2) if tier == "quick" else (1, 2, 3)) for res in (1, 100, 1400)
+            for r in ((0, 1) if tier == "quick" else (0, 1, 2))]
 
 
 def body_bin(E, cfg):
@@ -235,6 +273,16 @@ def units(prop):
         Unit(name="blur", body=body_blur, configs=configs_blur, functions=["src.correlation.vectorise:blur"],
              bounds="vectors of 0, 1, 3 and 6 (quick) / 8 (thorough) symbolic bits, radius 0..4",
              nontrivial_rule="every path", outside=["vectors longer than 8"]),
+        Unit(name="refinement-window-round-trip", body=body_window, configs=configs_window,
+             functions=["src.correlation.optical_map:OpticalMap.getSequence", "src.correlation.sequence_generator:SequenceGenerator.positionsToSequence",
+                        "src.correlation.vectorise:vectorisePositions", "src.correlation.vectorise:blur",
+                        "src.correlation.optical_map:toRelativeGenomicPositions"],
+             bounds="1..2 (quick) / 1..3 (thorough) non-negative labels, symbolic window start (may be negative) and end, <= 8 bins, resolution in "
+                    "{1, 100, 1400}, blur radius 0..1 (quick) / 0..2",
+             nontrivial_rule="a bit is set",
+             assumptions=["label coordinates are >= 0", "the window is decoded with the same start that was passed to getSequence, as "
+                          "InitialAlignment.refine does (referenceStart)", "real coordinates: bound res/2 + 1 (see toRelativeGenomicPositions)"],
+             outside=["the correlation between the two calls (C06)", "more than 8 bins"]),
         Unit(name="toRelativeGenomicPositions", body=body_bin, configs=configs_bin,
              functions=["src.correlation.optical_map:toRelativeGenomicPositions"],
              bounds="symbolic unbounded integer bin index and integer/real start; resolution in {1, 2, 3, 100, 1400, 1401}; scalar and "
